@@ -157,7 +157,7 @@ def rules(rep, m):
 
     # R-C04-3 ------------------------------------------------------------
     r3 = rep.rule("R-C04-3", "cmi_process_cancel_awaiteds is always applied to the process that the caller then resumes with "
-                  "a non-success signal, stops or ends - never to the running process on behalf of another", floor=4)
+                  "a non-success signal, stops or ends - never to the running process on behalf of another", floor=3)
     for f, c in inv.calls_to(m, "cmi_process_cancel_awaiteds"):
         cx = FuncCtx(m, f)
         who = cx.canon(kids(c)[1])
